@@ -99,11 +99,11 @@ func c13Namespaces(h *WHub) (map[string]string, error) {
 }
 
 type c13Ent struct {
-	ID         string         `json:"id"`
-	InternalID uint64         `json:"internalId"`
-	Recorded   uint64         `json:"recorded"`
-	Props      map[string]any `json:"props"`
-	Refs       map[string]any `json:"refs"`
+	ID         string            `json:"id"`
+	InternalID uint64            `json:"internalId"`
+	Recorded   uint64            `json:"recorded"`
+	Props      map[string]any    `json:"props"`
+	Refs       map[string]any    `json:"refs"`
 	Namespaces map[string]string `json:"namespaces"`
 }
 
@@ -484,13 +484,13 @@ type c13M struct {
 	dir     string
 	h       *WHub
 	hist    []c13Op
-	ns      map[string]string            // prefix -> expansion as last published
-	ids     map[string]uint64            // URI -> internal id, once observed
-	curies  map[string]string            // URI -> store CURIE, once observed
-	byID    map[uint64]string            // internal id -> URI
-	in      map[string]map[string]bool   // dataset -> URIs acknowledged
-	maybe   map[string]map[string]bool   // dataset -> URIs of a write that was killed
-	firstNS map[string]int               // expansion -> epoch (number of restarts/crashes before its first use)
+	ns      map[string]string          // prefix -> expansion as last published
+	ids     map[string]uint64          // URI -> internal id, once observed
+	curies  map[string]string          // URI -> store CURIE, once observed
+	byID    map[uint64]string          // internal id -> URI
+	in      map[string]map[string]bool // dataset -> URIs acknowledged
+	maybe   map[string]map[string]bool // dataset -> URIs of a write that was killed
+	firstNS map[string]int             // expansion -> epoch (number of restarts/crashes before its first use)
 	epoch   int
 	cls     map[string]bool
 	queries int
